@@ -234,6 +234,44 @@ def indices_body(c):
 
 
 @st.composite
+def api_sequence_case(draw):
+    """several analyses in one process whose data types are created with the class constructors (not from JSON), the way
+    a program using the package as a library does: nothing may leak from one object to the next"""
+    cases = [draw(phylo.like_case(families=("general",), nmax=5)) for _ in range(draw(st.integers(2, 3)))]
+    for c in cases:
+        c["tip"] = draw(st.sampled_from(["amb", "amb", "noamb"]))
+    if draw(st.booleans()):
+        cases.sort(key=lambda c: c["model"]["k"])
+    return {"cases": cases}
+
+
+def api_sequence_body(c):
+    from torchtree.evolution.datatype import GeneralDataType
+
+    first = classify(c["cases"][0])
+    res = Res(nontrivial=len({x["model"]["k"] for x in c["cases"]}) > 1, key=tuple(classify(x)[1] for x in c["cases"]),
+              labels=("api_sequence", "k=" + "<".join(str(x["model"]["k"]) for x in c["cases"])), tags=dict(first[3], api=True))
+    for i, cc in enumerate(c["cases"]):
+        spec = phylo.like_spec(cc)
+        dts, info = phylo.datatype_spec(cc)
+        dic = {}
+        # default arguments on purpose when the alphabet has no ambiguity codes
+        dic["dt"] = GeneralDataType("dt", tuple(info["codes"]), dict(info["ambiguities"])) if info["ambiguities"] else GeneralDataType("dt", tuple(info["codes"]))
+        for el in spec:
+            if isinstance(el, dict) and el.get("id") == "dt":
+                continue
+            phylo.tt.build(el, dic)
+        v = arr(dic["like"]())
+        ref = phylo.reference(cc, dic)
+        tol = 1e-9 * max(1.0, abs(ref)) + conditioning(cc, dic)
+        if v.size != 1 or not np.isfinite(v).all():
+            return res.fail("nonfinite", {"position": i, "value": v.tolist(), "reference": ref})
+        if abs(float(v.reshape(-1)[0]) - ref) > tol:
+            return res.fail("mismatch", {"position": i, "value": float(v.reshape(-1)[0]), "reference": ref, "alphabets": [x["model"]["k"] for x in c["cases"]]})
+    return res
+
+
+@st.composite
 def shared_case(draw):
     c = draw(phylo.like_case(families=("nucleotide", "nucleotide", "aa", "general"), nmax=5))
     c["modes"] = draw(st.permutations(["amb", "noamb", "states"]))[: draw(st.integers(2, 3))]
@@ -271,6 +309,7 @@ def subchecks(tier):
     return [
         Sub("random", body, strategy=phylo.like_case, quick=1500, thorough=80000, pretags=pretags),
         Sub("all_topologies", body, enumerate=_topology_cases, expand=expand_topology_case, exhaustive=(tier == "thorough"), pretags=pretags),
+        Sub("api_sequence", api_sequence_body, strategy=api_sequence_case, quick=150, thorough=6000, pretags=lambda c: dict(pretags(c["cases"][0]), api=True)),
         Sub("large", body, strategy=large_case, quick=150, thorough=10000, pretags=pretags),
         Sub("shared", shared_body, strategy=shared_case, quick=200, thorough=8000, pretags=pretags),
         Sub("indices", indices_body, strategy=indices_case, quick=200, thorough=8000, pretags=pretags),
